@@ -1,10 +1,13 @@
-/* force-included (-include) into src/xraylib-parser.c for the C07 scanner lemmas only: every realloc call additionally
- * passes the size of the element its pointer argument points to, so that the executable contract of realloc in
- * harness/h_parser.c can copy element-wise with the right type (CBMC's own model copies the object as one array and
- * loses the constant formula text).  Nothing else in the translation unit changes.                                   */
+/* force-included (-include) into src/xraylib-parser.c for the C07 scanner / add_compound_data lemmas only: every realloc
+ * and calloc call additionally passes the size of the element its pointer argument (resp. its element-size argument)
+ * refers to, so that the executable contracts in harness/h_parser.c can allocate and copy element-wise with the right type
+ * (CBMC's own models allocate a byte array of symbolic size and copy it as one array, which loses every constant and
+ * turns each record access into a byte-level extraction).  Nothing else in the translation unit changes.             */
 #ifndef XRLV_REALLOC_TYPED_H
 #define XRLV_REALLOC_TYPED_H
 #include <stdlib.h>
 void *xrlv_realloc(void *p, size_t n, size_t elem);
+void *xrlv_calloc(size_t nmemb, size_t elem);
 #define realloc(p, n) xrlv_realloc((p), (n), sizeof(*(p)))
+#define calloc(nmemb, elem) xrlv_calloc((nmemb), (elem))
 #endif
